@@ -27,7 +27,8 @@ CONSTANTS
   IterOn,    \* set of replicas on which Iterator is exercised ({} = never)
   Evil,      \* replicas that may replace entries they hold by tampered copies ({} = none)
   Kinds,     \* tamper kinds offered: "unsigned","missigned","nokey","payload","wrongkey","foreign"
-  MaxBad     \* bound on the number of tampered copies
+  MaxBad,    \* bound on the number of tampered copies
+  PubOn      \* replicas that may publish their manifest (ToMultihash) ({} = never)
 
 VARIABLES
   U,      \* sequence of entry records (index = creation order = model CID)
@@ -149,6 +150,17 @@ SetIdentity(r, w) ==
   /\ UNCHANGED <<U, ents, heads, nidx, pure, bad>>
 
 (***************************************************************************)
+(* Publish (log_io.go toMultihash): writes the manifest block {id, heads}. *)
+(* It changes no replica; the store only grows (C17 looks at the writes of *)
+(* the real run).  An empty log cannot be published (error).               *)
+(***************************************************************************)
+Publish(r) ==
+  /\ CanOp /\ r \in PubOn
+  /\ hist # <<>> => hist[Len(hist)] # <<"P", r>>          \* publishing twice in a row adds nothing
+  /\ hist' = Append(hist, <<"P", r>>)
+  /\ UNCHANGED core
+
+(***************************************************************************)
 (* Tamper: an adversarial replica rebuilds its log (NewLog with Entries and *)
 (* Heads) with one entry replaced by an altered copy that keeps the hash:  *)
 (* no signature, a wrong signature, no key, another key, an edited payload *)
@@ -190,6 +202,7 @@ Iterate(r, o) ==
   /\ UNCHANGED core
 
 Next ==
+  \/ \E r \in PubOn : Publish(r)
   \/ \E r \in Evil, k \in Kinds : \E x \in ents[r] : Tamper(r, x, k)
   \/ \E r \in IterOn : \E o \in IterOptions(r) : Iterate(r, o)
   \/ \E r \in R, pc \in PCs : AppendOk(r, pc) \/ AppendDenied(r, pc)
@@ -299,6 +312,11 @@ C06_OnlyValidAdded ==
           /\ U[x].w \notin Denied[r] /\ U[x].lid = Lid[r]]_vars
 C06_HeadsStayInLog ==
   \A r \in R : bad[r] = {} => HeadSet(r) \subseteq ents[r]    \* also after merging from tampered sources
+
+\* C17 (design level): an entry only ever links to entries created before it, so a store that
+\* receives each block when it is created is causally closed after every write
+C17_LinksPointBack ==
+  \A x \in DOMAIN U : \A y \in SeqRange(U[x].next) \cup SeqRange(U[x].refs) : y < x
 
 \* C15: the transcription of Iterator meets its declarative specification
 C15_AlgoMeetsSpec ==
